@@ -177,9 +177,11 @@ Round(e) ==
       res == IF nf = 0 \/ ~ExpRun(m, e.t, cs) THEN <<cnt, hs>> ELSE HaltFold(1, m, e.t, px, cnt, hs, e.p0) IN
   /\ cnt' = res[1] /\ hs' = res[2]
   /\ v' = [v EXCEPT
-            !.C15 = F_(@, rules # {} /\ e.t > 0 /\ \E k \in 1..nf :
-                              /\ <<m, e.fills[k][1]>> \notin early /\ <<m, e.fills[k][2]>> \notin early
-                              /\ ~InBandAll(e.fills[k][3] * PU, e.p0, rules), "C15:trade-outside-band"),
+            \* (a round's common price may be set by an order accepted during step 0, clipped against a reference
+            \*  price that was still moving: such rounds are not judged)
+            !.C15 = F_(@, rules # {} /\ e.t > 0
+                          /\ (\A k \in 1..nf : <<m, e.fills[k][1]>> \notin early /\ <<m, e.fills[k][2]>> \notin early)
+                          /\ (\E k \in 1..nf : ~InBandAll(e.fills[k][3] * PU, e.p0, rules)), "C15:trade-outside-band"),
             !.C16 = F_(@, nf > 0 /\ ~ExpRun(m, e.t, cs), "C16:fill-on-market-that-must-be-stopped")]
   /\ UNCHANGED <<now, cs, F, fired, reqs, accSeen, early>>
 
